@@ -238,7 +238,11 @@ func solveAll(e *Exec, res *HarnessResult, prop string, timeoutS int, meta *Harn
 		}
 		asserts := append([]*Term{q}, axioms...)
 		if g.kind == "cover" {
-			r := e.decide(asserts, timeoutS, meta.Solver, "", false)
+			cd := ""
+			if d := os.Getenv("VERIF_DUMP"); d != "" {
+				cd = filepath.Join(d, res.Harness+"_cover_"+sanitize(g.id))
+			}
+			r := e.decide(asserts, timeoutS, meta.Solver, cd, false)
 			or.Res, or.Solver, or.SolverS = r.res, r.solver, r.dur
 			res.Obligations = append(res.Obligations, or)
 			continue
